@@ -33,6 +33,7 @@ RULES = {
              'permission list reads back as such a statement)',
     'C09.d': 'credentials are not carried over: a transport that accepts requests in a loop creates a fresh Client inside that '
              'loop; has_permission reads the permission list from Database.map on every call',
+    'C09.g': 'permission patterns are matched by the selector table x* -> prefix, *x -> suffix, otherwise contains (C01.c pattern-table): a wider matcher widens every grant',
 }
 
 ADMIN = {'CreateDb', 'Snapshot', 'CreateUser', 'SetPermissions', 'Join', 'Leave', 'SetPrimary', 'SetScoundary',
